@@ -163,7 +163,11 @@ Q q_t_tie()
     for (int i = 0; i < TN; i++) { vf_assert(o[i] == 1, "tie(x...) refers to the variables"); vf_assert(o[TN + i] == in[TN + i], "assignment through tie's references"); }
 }
 Q q_t_make() { RUN(t_make, TN, 2 * TN); for (int i = 0; i < TN; i++) vf_assert(o[i] == in[i], "make_tuple(args...)"); }
-
+Q q_t_const_ref()
+{
+    VF_KNOWN(C20_tuple_const_get_reference_element, true);
+    RUN(t_const_ref, TN, 5 * TN + 1);
+}
 #undef OPS
 // ---- float elements: unordered values
 extern "C" unsigned k_pf_rel(float, float, float, float);
